@@ -807,7 +807,9 @@ def run_property(pid, module_names, tier="quick", jobs=None, only=None):
         "samples": samples or [{"note": "no symbolic obligation in this run"}],
         "known_findings_reported": known_lines,
         "undecided": undecided[:20], "engine_errors": crashes[:10],
-        "explanation": prop.notes.get("explanation", ""),
+        "explanation": prop.notes.get("explanation", "") or (
+            "contract-based deductive check (obligations/discharged above) plus bounded stand-ins; reported at level "
+            "'other' when recorded known findings remain unrepaired or an obligation is undecided in this run"),
     }
     if ev_level in ("exploration", "fault_enumeration") or not n_obl:
         ev = sum(b["evaluations"] for b in bounded_info) + sum(g["cases"] for g in ground_info)
